@@ -77,7 +77,8 @@ Record geom := mkGeom {
   g_U : list vec;
   g_chem : list nat;
   g_excl : list nat;                    (* excluded chemistries *)
-  g_r2n : Z; g_r2d : Z }.               (* cutoff^2 *)
+  g_r2n : Z; g_r2d : Z;                 (* cutoff^2 *)
+  g_over : bool; g_wover : vec }.       (* g_over = true: search box of half-widths g_wover instead of the code's formula *)
 
 Definition quad (G : Z * Z * Z * Z * Z * Z) (v : vec) : Z :=
   let '(g11, g22, g33, g12, g13, g23) := G in let '(x, y, z) := v in
@@ -104,7 +105,9 @@ Definition rsqrt (a b : Z) : Z := (Z.sqrt (4 * a * b) + b) / (2 * b).
 Definition nmax_of (gii : Z) : Z := rsqrt (g_r2n ge * g_sg ge) (g_r2d ge * gii) + 1.
 Definition nmaxv : vec :=
   let '(g11, g22, g33, _, _, _) := g_G ge in
-  (nmax_of g11, nmax_of g22, if Nat.leb 3 (g_dim ge) then nmax_of g33 else 0).
+  let '(w0, w1, w2) := g_wover ge in
+  if g_over ge then (w0, w1, if Nat.leb 3 (g_dim ge) then w2 else 0)
+  else (nmax_of g11, nmax_of g22, if Nat.leb 3 (g_dim ge) then nmax_of g33 else 0).
 
 Definition in_boxw (w : vec) (R : vec) : bool :=
   let '(n0, n1, n2) := w in let '(x, y, z) := R in
@@ -355,26 +358,30 @@ Definition mk_sites (k : ckind) (l : clus) : clus :=
   match lis with [] => [] | h :: _ => map (shift (vneg (p_R h))) lis end.
 
 (* tag appended to the key of the first Nvac sites: 1 = "(-1,)" vacancy, 2 = native chemistry *)
-Definition tag (k : ckind) (i : nat) : nat :=
+(* tt = true models the repaired constructor that also tags the two transition sites (3) *)
+Definition tag (tt : bool) (k : ckind) (i : nat) : nat :=
   match k, i with
-  | Vac, O => 1 | TSVac, O => 1 | TSVac, S O => 2 | _, _ => 0
+  | Vac, O => 1 | TSVac, O => 1 | TSVac, S O => 2
+  | TS, O => if tt then 3 else 0 | TS, S O => if tt then 3 else 0
+  | _, _ => 0
   end%nat.
 
 Definition ckey := (nat * nat * vec)%type.     (* (tag, site, Nsites * R - center) *)
 Definition ckey_eqb (a b : ckey) : bool :=
   let '(t1, s1, v1) := a in let '(t2, s2, v2) := b in Nat.eqb t1 t2 && Nat.eqb s1 s2 && veqb v1 v2.
 
-Fixpoint keys_from (k : ckind) (i : nat) (N : Z) (center : vec) (l : clus) : list ckey :=
+Fixpoint keys_from (tt : bool) (k : ckind) (i : nat) (N : Z) (center : vec) (l : clus) : list ckey :=
   match l with
   | [] => []
-  | p :: l' => (tag k i, p_site p, vsub (vscale N (p_R p)) center) :: keys_from k (S i) N center l'
+  | p :: l' => (tag tt k i, p_site p, vsub (vscale N (p_R p)) center) :: keys_from tt k (S i) N center l'
   end.
 (* the (r + shiftpos) tuples of __init__, in site order *)
-Definition ckeys (k : ckind) (sites : clus) : list ckey :=
-  keys_from k O (Z.of_nat (length sites)) (vsum (map p_R sites)) sites.
+Definition ckeys (tt : bool) (k : ckind) (sites : clus) : list ckey :=
+  keys_from tt k O (Z.of_nat (length sites)) (vsum (map p_R sites)) sites.
 
-Record cvalue := mkC { c_kind : ckind; c_sites : clus }.        (* kind + self.sites *)
-Definition Cluster (k : ckind) (l : clus) : cvalue := mkC k (mk_sites k l).
+Record cvalue := mkC { c_tt : bool; c_kind : ckind; c_sites : clus }.        (* kind + self.sites *)
+Definition Cluster (tt : bool) (k : ckind) (l : clus) : cvalue := mkC tt k (mk_sites k l).
+Definition ckeys_of (c : cvalue) : list ckey := ckeys (c_tt c) (c_kind c) (c_sites c).
 
 Definition key_subset (a b : list ckey) : bool := forallb (fun x => existsb (ckey_eqb x) b) a.
 
@@ -391,8 +398,8 @@ Definition istransition (c : cvalue) (s0 s1 : psite) : bool :=
 Definition ceq (c d : cvalue) : bool :=
   ckind_eqb (c_kind c) (c_kind d) &&
   Nat.eqb (length (c_sites c)) (length (c_sites d)) &&
-  key_subset (ckeys (c_kind c) (c_sites c)) (ckeys (c_kind d) (c_sites d)) &&
-  key_subset (ckeys (c_kind d) (c_sites d)) (ckeys (c_kind c) (c_sites c)) &&
+  key_subset (ckeys_of c) (ckeys_of d) &&
+  key_subset (ckeys_of d) (ckeys_of c) &&
   (if is_ts (c_kind c)
    then match c_sites d with s0 :: s1 :: _ => istransition c s0 s1 | _ => false end
    else true).
@@ -402,5 +409,5 @@ Variable A : Type.
 Variable op : A -> A -> A.        (* ^ on python ints *)
 Variable e : A.                   (* 0 *)
 Variable H : ckey -> A.           (* hash(r + shiftpos) *)
-Definition chash (c : cvalue) : A := fold_left (fun h k => op h (H k)) (ckeys (c_kind c) (c_sites c)) e.
+Definition chash (c : cvalue) : A := fold_left (fun h k => op h (H k)) (ckeys_of c) e.
 End Hash.
